@@ -16,7 +16,7 @@ func init() {
 		ID:    "C05",
 		Level: "exploration",
 		Rule: "one history per case on linear.Seq/QSeq, alignment.Seq/QSeq (column-stored), multi.Multi of Seq or QSeq rows (flush and ragged, negative offsets) or multi.Set; six complementing alphabets, letters from each pairing's domain " +
-			"(ambiguity codes, n, x, gap, both cases), lengths 0..40; first RevComp twice and Reverse twice on a fresh copy (direct involution check), then up to 6 operations from {RevComp, Reverse, Clone and continue on either copy, Set, row RevComp, row SetOffset}, " +
+			"(ambiguity codes, n, x, gap, both cases), lengths 0..40; zero-column alignment.Seq/QSeq get a direct strand check; otherwise first RevComp twice and Reverse twice on a fresh copy (direct involution check), then up to 6 operations from {RevComp, Reverse, Clone and continue on either copy, Set, row RevComp, row SetOffset}, " +
 			"the full observable state (letters, qualities, coordinates, strands, column view) compared with a clean-room model after every step and every frozen copy re-observed. Non-trivial = length >= 2 and (ragged rows or qualities or ambiguity letters); distinct = initial state + operations",
 		Batches: func(t string) int {
 			if t == "thorough" {
